@@ -4,7 +4,7 @@
    order oracle ord (Go's map iteration, any permutation at every call), every well-formed state
    (every collection content: duplicate, mixed-case, empty keys). *)
 From Coq Require Import Permutation.
-From Verif Require Import Base Transform Match MatchProofs.
+From Verif Require Import Base Transform CaseMap Match MatchProofs MatchFold MatchFoldProofs.
 
 (* a collection built from the request's (name, value) pairs holds exactly those pairs, and is well formed *)
 Theorem C01_collection_holds_request : forall l, Permutation (flat_entries (map_of_list l)) l /\ wf_map (map_of_list l).
@@ -132,3 +132,30 @@ Theorem C01_regex_key_escape_exact : forall p k, p = RxNonDigits \/ p = RxDigits
   rxm csem (rxlow csem p) (key_lower k) = rxm csem p k.
 Proof. exact class_key_fold_exact. Qed.
 Print Assumptions C01_regex_key_escape_exact.
+
+(* ---- keyed selection with the key folding as a parameter (any F; strings.ToLower = cm_fold lower_table) ---- *)
+(* a collection built with fold F loses and invents nothing and is well formed, whatever the names *)
+Theorem C01_fold_collection_holds_request : forall F l,
+  Permutation (flat_entries (fmap_of_list F l)) l /\ fwf_map F (fmap_of_list F l).
+Proof. intros F l. split; [apply fmap_of_list_entries | apply fmap_of_list_wf]. Qed.
+Print Assumptions C01_fold_collection_holds_request.
+
+(* FindString(k): exactly the entries whose folded name equals the folded key - for every fold, so also
+   for names with invalid UTF-8 bytes or letters whose lower-case form is ASCII (U+212A vs k) *)
+Theorem C01_fold_find_string_exact : forall F l k,
+  Permutation (ffind_string F (fmap_of_list F l) k) (filter (fun e => bytes_eqb (F k) (F (fst e))) l).
+Proof. exact ffind_string_spec. Qed.
+Print Assumptions C01_fold_find_string_exact.
+
+(* FindRegex: exactly the entries whose folded name the pattern accepts *)
+Theorem C01_fold_find_regex_exact : forall F rx l,
+  Permutation (ffind_regex rx (fmap_of_list F l)) (filter (fun e => rx (F (fst e))) l).
+Proof. exact ffind_regex_spec. Qed.
+Print Assumptions C01_fold_find_regex_exact.
+
+(* with Go's case table (any table that agrees with ASCII lower-casing below 128) and ASCII names these
+   are the collections of Match.v, i.e. the ones the correspondence validates *)
+Theorem C01_fold_is_match_on_ascii : forall tbl l, tbl_ascii_ok ascii_lower tbl = true ->
+  Forall (fun e => all_ascii (fst e) = true) l -> fmap_of_list (cm_fold tbl) l = map_of_list l.
+Proof. exact fmap_of_list_ascii. Qed.
+Print Assumptions C01_fold_is_match_on_ascii.
